@@ -294,6 +294,11 @@ fn elem_forms(all: &[Value]) -> Vec<(u8, Box<dyn Fn(&Value) -> Vec<u8>>)> {
     v
 }
 
+thread_local! {
+    /// arrays written with a compact element constructor that the Lean specification models
+    pub static COMPACT_MODELLED: std::cell::Cell<u64> = const { std::cell::Cell::new(0) };
+}
+
 /// encodes `v` making random choices; returns the bytes and the choices as a text tree for the Lean
 /// specification (`None` where it made a choice the Lean specification does not model)
 pub fn ref_enc(v: &Value, rng: &mut Rng, ch: &mut String, modelled: &mut bool) -> Vec<u8> {
@@ -435,14 +440,27 @@ pub fn ref_enc(v: &Value, rng: &mut Rng, ch: &mut String, modelled: &mut bool) -
             }
             let i = rng.below(forms.len() as u64) as usize;
             let (code, f) = &forms[i];
-            if i != 0 {
-                // a compact element constructor: permitted by the specification, not part of the Lean one
-                *modelled = false;
-                ch.push_str(&format!("!{:02x}", code));
+            // the element choice, as the single child of the array's node: one-byte integers (form 1),
+            // 8-bit lengths (wide 0); zero-width element constructors are not part of the Lean specification
+            let child = if i == 0 {
+                ""
+            } else {
+                match *code {
+                    0x52 | 0x53 | 0x54 | 0x55 => "l10",
+                    0xa0 | 0xa1 | 0xa3 => "l00",
+                    _ => {
+                        *modelled = false;
+                        ch.push_str(&format!("!{:02x}", code));
+                        ""
+                    }
+                }
+            };
+            if !child.is_empty() {
+                COMPACT_MODELLED.with(|c| c.set(c.get() + 1));
             }
             let body: Vec<u8> = vs.iter().flat_map(|x| f(x)).collect();
             let wide = body.len() + 2 >= 256 || vs.len() >= 256 || rng.chance(1, 2);
-            ch.push_str(&format!("k{}0[]", if wide { 1 } else { 0 }));
+            ch.push_str(&format!("k{}0[{}]", if wide { 1 } else { 0 }, child));
             if wide {
                 [vec![0xf0], be32(body.len() + 5).to_vec(), be32(vs.len()).to_vec(), vec![*code], body].concat()
             } else {
@@ -680,7 +698,7 @@ pub fn main(opts: &Opts) {
             let mut ch = String::new();
             let mut modelled = true;
             let bytes = ref_enc(&v, &mut rng, &mut ch, &mut modelled);
-            report.count(if modelled { "variants_in_the_lean_specification" } else { "variants_with_compact_array_constructors" });
+            report.count(if modelled { "variants_in_the_lean_specification" } else { "variants_with_zero_width_array_constructors" });
             match crate::codec::dec_slice(&bytes) {
                 crate::codec::DecOut::Ok { value, rest: 0 } if value == text => {}
                 other => {
@@ -762,6 +780,7 @@ pub fn main(opts: &Opts) {
     } else {
         report.notes.push("model driver not available: correspondence skipped".into());
     }
+    report.count_n("arrays_with_compact_element_constructors_in_the_lean_specification", COMPACT_MODELLED.with(|c| c.get()));
     report.write(&opts.report);
     println!("specenc: {} cases, {} non-trivial, {} findings", report.evaluations, report.nontrivial.len(), report.findings.len());
 }
